@@ -101,15 +101,26 @@ func vfC15Run(e *vfEnv, r *vfResult, idx int) { //nolint:cyclop,maintidx
 	reads := map[string][]vfC15Read{} // ufrag -> packets read from its connection
 	conns := map[string]net.PacketConn{}
 	var rwg sync.WaitGroup
+	// one history in three: the owners poll with short read deadlines (some already expired when the read starts), as
+	// applications with their own timers do; a read that reports a timeout must not have consumed a packet
+	polling := rng.IntN(3) == 0
 	startReader := func(uf string, pc net.PacketConn) {
 		rwg.Add(1)
+		prng := rand.New(rand.NewPCG(e.seed+uint64(idx)*977, uint64(len(uf))+uint64(uf[len(uf)-1]))) //nolint:gosec
 		go func() {
 			defer rwg.Done()
 			buf := make([]byte, 9000)
 			errs := 0
 			for {
+				if polling {
+					_ = pc.SetReadDeadline(time.Now().Add(time.Duration(prng.IntN(400)-50) * time.Microsecond))
+				}
 				n, a, err := pc.ReadFrom(buf)
 				if err != nil {
+					var ne net.Error
+					if polling && errors.As(err, &ne) && ne.Timeout() {
+						continue // poll again
+					}
 					// io.ErrClosedPipe: the packet connection (or this handle) is closed. Anything else is the end of
 					// ONE TCP connection, reported with its address; the packet connection lives on.
 					errs++
@@ -156,6 +167,7 @@ func vfC15Run(e *vfEnv, r *vfResult, idx int) { //nolint:cyclop,maintidx
 		local       string
 		closedByMux bool
 		err         string
+		slowFirst   bool // the harness itself took more than half the first-frame timeout to get the first frame out: not judged
 	}
 	nC := 1 + rng.IntN(12)
 	results := make([]*clientRes, nC)
@@ -169,6 +181,7 @@ func vfC15Run(e *vfEnv, r *vfResult, idx int) { //nolint:cyclop,maintidx
 		cwg.Add(1)
 		go func() {
 			defer cwg.Done()
+			tDial := time.Now()
 			c, err := net.DialTimeout("tcp", addr, 5*time.Second)
 			if err != nil {
 				res.err = err.Error()
@@ -205,11 +218,13 @@ func vfC15Run(e *vfEnv, r *vfResult, idx int) { //nolint:cyclop,maintidx
 				// the first frame may arrive in pieces
 				fr := vfFrame(first)
 				cut := 1 + crng.IntN(len(fr)-1)
+				t0 := time.Now() // (the connection was accepted some time before this; the mux's deadline runs from its accept)
 				_, _ = c.Write(fr[:cut])
 				if crng.IntN(2) == 0 {
 					time.Sleep(time.Duration(crng.IntN(3)) * time.Millisecond)
 				}
 				_, _ = c.Write(fr[cut:])
+				res.slowFirst = time.Since(tDial) > firstTO/2 || time.Since(t0) > firstTO/2
 				nPk := crng.IntN(8)
 				for k := 0; k < nPk; k++ {
 					p := []byte(fmt.Sprintf("\x90c%d-%d-%d", idx, res.id, k))
@@ -283,7 +298,7 @@ func vfC15Run(e *vfEnv, r *vfResult, idx int) { //nolint:cyclop,maintidx
 		missing := false
 		mu.Lock()
 		for _, res := range results {
-			if res.kind != "good" {
+			if res.kind != "good" || res.slowFirst {
 				continue
 			}
 			if _, registered := conns[res.ufrag]; !registered {
@@ -345,13 +360,18 @@ func vfC15Run(e *vfEnv, r *vfResult, idx int) { //nolint:cyclop,maintidx
 		return
 	}
 	r.eval(1)
-	wit := map[string]any{"idx": idx, "ufrags": ufrags, "late_ufrag": lateUfrag, "clients": nC, "multi_wrapper": multi}
+	wit := map[string]any{"idx": idx, "ufrags": ufrags, "late_ufrag": lateUfrag, "clients": nC, "multi_wrapper": multi, "polling_readers": polling}
 	kinds := []string{}
 	// ---- routing oracle
 	mu.Lock()
 	for _, res := range results {
 		kinds = append(kinds, res.kind)
 		if res.kind != "good" || res.err != "" && len(res.replies) == 0 && len(res.sent) == 0 {
+			continue
+		}
+		if res.slowFirst {
+			r.count("c15_good_clients_not_judged_slow_harness", 1) // the mux may rightly have closed it as late
+
 			continue
 		}
 		if _, registered := conns[res.ufrag]; !registered {
@@ -437,7 +457,7 @@ func vfC15Run(e *vfEnv, r *vfResult, idx int) { //nolint:cyclop,maintidx
 	if fdBefore >= 0 && fdAfter > fdBefore {
 		r.violation("tcpmux-fd-leak", fmt.Sprintf("history %d: %d file descriptors before, %d after Close", idx, fdBefore, fdAfter), wit)
 	}
-	r.distinct(fmt.Sprintf("tcpmux/u%d/late=%v/c%d/multi=%v/%v", nU, lateUfrag != "", nC, multi, kindSet(kinds)))
+	r.distinct(fmt.Sprintf("tcpmux/u%d/late=%v/c%d/multi=%v/poll=%v/%v", nU, lateUfrag != "", nC, multi, polling, kindSet(kinds)))
 	if idx < 3 {
 		wit["client_kinds"] = kinds
 		r.sample(wit)
